@@ -183,7 +183,8 @@ class Ctx:
         }
         if self.notes:
             ev["coverage"]["notes"] = self.notes
-        evdir = "evidence" if os.path.realpath(REPO) == "/repo" else "evidence-alt"   # experiments on worktrees never touch the evidence
+        # experiments on worktrees and partial runs (VERIF_PHASES) never touch the evidence
+        evdir = "evidence" if os.path.realpath(REPO) == "/repo" and not os.environ.get("VERIF_PHASES") else "evidence-alt"
         os.makedirs(os.path.join(VERIF, evdir), exist_ok=True)
         with open(os.path.join(VERIF, evdir, "%s.json" % self.prop), "w") as fh:
             json.dump(ev, fh, indent=1, sort_keys=True, default=str)
